@@ -86,6 +86,9 @@ impl StateMachine<'_> {
             }
             self.painter.paint_buffered_minus_and_plus_lines();
             self.state = MergeConflict(merge_parents.clone(), Ours);
+            // (the names of an earlier conflict, in particular an ancestor, say nothing about this one)
+            self.painter.merge_conflict_commit_names[Ancestral] = None;
+            self.painter.merge_conflict_commit_names[Theirs] = None;
             self.painter.merge_conflict_commit_names[Ours] = Some(commit);
             Ok(true)
         } else {
